@@ -18,7 +18,7 @@ UpgEl == IF Full THEN UpgElems ELSE {e \in UpgElems : e.sp \in {"websocket", "We
 \* the separator only matters when some line has two elements
 HasPair(l) == \E i \in DOMAIN l : Len(l[i]) > 1
 Reqs == {r \in [conn : Lists(ConnEl), upg : Lists(UpgEl), ver : {"absent", "13", "other"},
-                 key : {"absent", "present"}, sep : Seps] :
+                 key : {"absent", "present", "odd"}, sep : Seps] :
            (~HasPair(r.conn) /\ ~HasPair(r.upg)) => r.sep = "comma"}
 
 \* the spelling of a list never matters
